@@ -237,6 +237,9 @@ def gen_c05(r, knobs=None):
                         # (disk full / I/O error in the middle of the file: a short write, then the error)
                         de['wlimit'] = r.choice([0, 0, 1, 9, 60, 400, 5000])
                         de['errno'] = r.choice(['ENOSPC', 'EIO'])
+                        if r.random() < 0.35:
+                            # the data sits in the buffer and the error surfaces only when the file is flushed / closed
+                            de['at_close'] = True
                     b.req(cid, name, diskerr=de)
                 b.req(cid, name)        # the error was transient: the same request has to recover
                 b.op(op='insp', cid=cid, kind='has_data')
